@@ -221,7 +221,8 @@ def shape_stage(ctx, res, nfonts, ntexts, as_failure=False, gen_kw=None, fontgen
             for _ in range(ntexts):
                 t = textgen(r) if textgen else fontsynth.gen_text(r)
                 hx = "".join("%08x" % c for c in t) or "-"
-                d = r.choice([0, 1]) if both else 0
+                # the direction argument of gr_make_seg: bit 0 right to left, bit 1 gr_nobidi, bit 2 gr_nomirror
+                d = r.choice([0, 1, 1, 3, 3, 7]) if both else 0
                 lines.append("F0=%d,0,f;S0=0,-1,-1,0,32,%d,-1,%s;R0;D0" % (i, d, hx))
                 mlines.append("shape %s dir=%d text=%s" % (desc["model"], d, hx))
         impl = lib.run_lines([exe] + fonts, lines, per_chunk=100)
